@@ -12,6 +12,8 @@
 (*   DelToken / DupToken / SwapTokens                                       *)
 (*   BreakLine(k)   a backslash-newline continuation in front of token k    *)
 (*   JoinLines(k)   the newline ending line k replaced by a blank           *)
+(*   Flatten(k)     every line break from line k on replaced by a blank:    *)
+(*                  several definitions on one physical line                *)
 (*   OddSpace(k)    a form feed / vertical tab / lone CR / U+2028 ... in    *)
 (*                  front of token k (blank, but not a line break)          *)
 (*   Soup(w)        a sequence over the language's lexical alphabet        *)
@@ -37,7 +39,7 @@ VARIABLES base, ops
 vars == <<base, ops>>
 
 PosOps == {"Prefix", "Suffix", "CutChars", "DelLine", "DupLine", "SwapLines", "DelToken", "DupToken", "SwapTokens",
-           "BreakLine", "JoinLines", "OddSpace"}
+           "BreakLine", "JoinLines", "OddSpace", "Flatten"}
 Op(k, a) == [k |-> k, a |-> a]
 
 Init == base \in 0..NBases /\ ops = <<>>          \* base 0 = the empty text (only soups / nests / bytes apply)
